@@ -34,10 +34,10 @@ func c15(c *q.Ctx) {
 	c.WhoWrites("ProposalNode.Sons", map[string]string{
 		ctor: "constructor",
 		"kernel/consensus/base/driver/chained-bft/main::*": "stand-alone demo main package",
-		bft + "(*QCPendingTree).insert":       "attach below the parent",
-		bft + "(*QCPendingTree).insertOrphan": "orphan forest",
-		bft + "(*QCPendingTree).adoptOrphans": "orphans adopted by their parent",
-		bft + "(*QCPendingTree).updateCommit": "prune above the new root",
+		bft + "(*QCPendingTree).insert":                    "attach below the parent",
+		bft + "(*QCPendingTree).insertOrphan":              "orphan forest",
+		bft + "(*QCPendingTree).adoptOrphans":              "orphans adopted by their parent",
+		bft + "(*QCPendingTree).updateCommit":              "prune above the new root",
 	}, "the shape of the tree changes only through these")
 	// OrphanMap: never deleted from
 	nDel := 0
@@ -55,7 +55,9 @@ func c15(c *q.Ctx) {
 	uh := c.Fn(bft + "(*QCPendingTree).updateHighQC")
 	eh := c.Fn(bft + "(*QCPendingTree).enforceUpdateHighQC")
 	node := "chained_bft.(*QCPendingTree).DFSQueryNode(p0,p1)"
-	par := func(x string) string { return "chained_bft.(*QCPendingTree).DFSQueryNode(p0,i:QuorumCertInterface.GetParentProposalId(" + x + ".In))" }
+	par := func(x string) string {
+		return "chained_bft.(*QCPendingTree).DFSQueryNode(p0,i:QuorumCertInterface.GetParentProposalId(" + x + ".In))"
+	}
 	for _, f := range []*ssa.Function{uh, eh} {
 		if f == nil {
 			continue
